@@ -246,7 +246,7 @@ func CoordMain(propID, tier string, seed uint64, runsOverride int) int {
 				continue
 			}
 			violLines = append(violLines, fmt.Sprintf("VIOLATION property=%s replay=%s", propID, orig))
-			fmt.Printf("violation: run=%d class=%s (reproduces in a fresh process only: depends on process-lifetime state)\n  %s\n", v.Idx, v.V.Class, v.V.Msg)
+			fmt.Printf("violation: run=%d class=%s\n  (reproduces in a fresh process only: the outcome depends on process-lifetime state)\n  %s\n", v.Idx, v.V.Class, v.V.Msg)
 			exit = 1
 			continue
 		}
